@@ -117,6 +117,13 @@ class WExec(Exec):
                         v = RemoteException(e)
                 arrivals[uid] = s.now
                 q_in.put((uid, v))
+            if cfg.get('gaps', True):
+                # the server keeps running after the last request: the end marker comes after a pause of its own, so the
+                # last (partial) batch cannot count on it
+                g = (0.0, unit * 2)[s.choose(2, 'gap-end')]
+                self.gaps.append(g)
+                if g > 0:
+                    time.sleep(g)
             if cfg.get('gated') and not cfg.get('gate_on_full'):
                 # open the gate only once everything is queued: the collector has to cope with a full buffer
                 s.block(lambda: False, 5.0, on='feeder-pause')
